@@ -212,11 +212,11 @@ theorem stepConn_dich {X : Ext} (hX : Bad X) (c : Conn) (hp : AllProp c) :
               | ok sp => cases scripts <;> exact pre_ev _ hpre
   | handler r h =>
     simp only [stepConn, extC, extE, ext_input]
-    rcases hh : handlerPoll (1000 + env.tr.input.length * 4 + (env.segs.map (·.2.length)).sum * 4 + r.sp.cap * 4)
+    rcases hh : handlerPoll (1000 + env.tr.input.length * 4 + (env.segs.map (·.2.length)).sum * 4 + r.sp.cap * 4 + scriptCost h)
       r h env with ⟨r1, h1, e1, hres⟩
     rcases handlerPoll_dich hX _ _ _ _ hph hh with hs | ⟨r2, h2, e2, res2, hh2, hst, hpre⟩
     · left
-      have hs' : handlerPoll (1000 + env.tr.input.length * 4 + (env.segs.map (·.2.length)).sum * 4 + r.sp.cap * 4)
+      have hs' : handlerPoll (1000 + env.tr.input.length * 4 + (env.segs.map (·.2.length)).sum * 4 + r.sp.cap * 4 + scriptCost h)
           r h { tr := ext X env.tr, mutex := env.mutex, segs := env.segs } = (r1, h1, extE X e1, hres) := hs
       rw [hs']
       cases hres with
@@ -230,7 +230,7 @@ theorem stepConn_dich {X : Ext} (hX : Bad X) (c : Conn) (hp : AllProp c) :
           split <;> rfl
     · right
       obtain ⟨x, rfl, he⟩ := hst
-      have hh2' : handlerPoll (1000 + env.tr.input.length * 4 + (env.segs.map (·.2.length)).sum * 4 + r.sp.cap * 4)
+      have hh2' : handlerPoll (1000 + env.tr.input.length * 4 + (env.segs.map (·.2.length)).sum * 4 + r.sp.cap * 4 + scriptCost h)
           r h { tr := ext X env.tr, mutex := env.mutex, segs := env.segs } = (r2, h2, e2, .done (.error x)) := hh2
       rw [hh2']
       simp only [he.ne, Bool.false_eq_true, if_false]
